@@ -174,7 +174,8 @@ def session(cfg, sock):
                 if cfg['empty']:
                     sd = c.send_empty_data()
                 else:
-                    sd = c.send_data(b'Subject: x\r\n\r\n', b'.leading dot\r\nbody\r\n')
+                    # three parts, the middle one empty: part boundaries are not line boundaries of their own
+                    sd = c.send_data(b'Subject: x\r\n\r\n', b'', b'.leading dot\r\nbody\r\n')
                 if cfg['lmtp']:
                     for rcpt, r in sd:
                         holders.append((pre + 'enddata%d' % int(rcpt[1]), r))
@@ -193,6 +194,13 @@ def session(cfg, sock):
     for name, r in holders:
         msg = r.message
         got.append((name, r.code, msg))
+    # what the client put on the wire as message content must be exactly one message: the gate above counts the replies owed by
+    # parsing these bytes the way a server does, so an unescaped "." line would entitle the client to replies it never asked for
+    sent = sock.sent()
+    if not cfg['empty'] and err is None and b'DATA\r\n' in sent:
+        for chunk in sent.split(b'DATA\r\n')[1:]:
+            if b'Subject: x' in chunk and not chunk.startswith(b'Subject: x\r\n\r\n..leading dot\r\nbody\r\n.\r\n'):
+                err = 'content-wire-mismatch: ' + repr(chunk[:60])
     return tuple(got), err, len(c.reply_queue), c.io.recv_buffer + sock.unread()
 
 
